@@ -1246,7 +1246,36 @@ func checkWordOffsets(e *Env, m *e1Model) {
 			}
 			key := fmt.Sprintf("%s/%s", spec.fn, wname)
 			if !ok {
-				r.Unknown("E1.ldword", key, p.Pos(fn.Pos()), "the load literal or its byte-order branch was not recognised")
+				// the literal is built by helpers of the load function: use the instances of the emitter automaton (the offset
+				// is resolved there per byte-order world through the helpers the walker explored)
+				marker := ">" + fn.Name() + "@"
+				seenInst, good, bad := 0, true, ""
+				for _, nd := range m.fragG.Nodes {
+					if nd.Kind != emit.EvEmit || nd.Lit == nil || nd.Lit.Type != "LoadAbsolute" || !strings.Contains(nd.Ctx, marker) || nd.EndianOf() != world {
+						continue
+					}
+					seenInst++
+					k, arg, okA := affineOffset(nd.Lit.Fields["Off"])
+					sz, okS := int64(0), false
+					if so := nd.Lit.Fields["Size"]; so != nil {
+						sz, okS = so.IsConstInt()
+					}
+					want := int64(16)
+					if (spec.hiWord && world > 0) || (!spec.hiWord && world < 0) {
+						want = 20
+					}
+					if !(okA && arg != nil && k == want && okS && sz == 4) {
+						good = false
+						bad = fmt.Sprintf("offset %d + 8*arg (affine=%v), size %d, want %d + 8*arg, size 4", k, okA && arg != nil, sz, want)
+					}
+				}
+				if seenInst == 0 {
+					r.Unknown("E1.ldword", key, p.Pos(fn.Pos()), "the load literal or its byte-order branch was not recognised")
+					continue
+				}
+				r.Check(good, "E1.ldword", key, p.Pos(fn.Pos()),
+					fmt.Sprintf("%d instances of the emitter automaton: the %s word on a %s seccomp_data", seenInst, spec.display, wname),
+					fmt.Sprintf("%s on a %s layout loads %s", spec.fn, wname, bad))
 				continue
 			}
 			res := origin.NewResolver()
